@@ -12,8 +12,8 @@ CLAIMED = {
          "frame theorem holds for all inputs, valid or not; independence of suffix/offset is checked on the real decoders", "DESIGN.md 7 C03"),
  "C04": ("Coq: C04_no_panic -- for every specification satisfying the decidable sup4_b, every declared type, EVERY byte string and fuel, the emitted decoder never panics (no advance/slice/get out of bounds, no stuck state) and Ok results have the declared shape (preservation by induction on fuel over the emitted fragment; wire_size of decoded values defined and a multiple of 4); every reader total; cursor stays inside; termination PARTIAL (K3 on hostile inputs); native stack = finding F9 observed by the deep-chain probe",
          "no-panic is a theorem for all inputs over the model tied by K2/K3; sup4_b measured on every corpus specification", "DESIGN.md 0 and 7 C04"),
- "C05": ("Coq: count > max and count > bytes present are InvalidLength, count = max accepted, for all buffers (reader level); bound carried by the emitted call (K2); prefixes PARTIAL (K3 + exhaustive byte-granular prefixes); F3 refuted",
-         "reader-level theorems for all inputs; emitted bounds tied by K2 on every bounded declarator form", "DESIGN.md 7 C05"),
+ "C05": ("Coq: C05_no_prefix -- for every specification satisfying sup, every well-typed value, every strict byte-granular prefix of its encoding is rejected with InvalidLength (mutual induction using the C01 round trip for the complete parts); count > max and count > bytes present are InvalidLength, count = max accepted, for all buffers (reader level); C05_refuted_F3; bound carried by the emitted call tied by K2; K3 + exhaustive prefixes / over-max values as search",
+         "universal theorems over the model tied by K2/K3; emitted bounds tied by K2 on every bounded declarator form", "DESIGN.md 0 and 7 C05"),
  "C06": ("Coq: invalid boolean / option marker / enum word / non-UTF-8 rejected with the right Error for every word; union arm selection PARTIAL (semantics of emitted patterns tied by K2+K3, searched on every declared label)",
          "theorems over all 2^32 words (statements over N, not sweeps)", "DESIGN.md 7 C06"),
  "C07": ("Coq: every Rust keyword escaped by both regenerated tables, tables agree; rustc is the oracle: every corpus module compiled with both derive lines plus visitors naming every documented field/variant; wf_module PARTIAL",
